@@ -215,6 +215,9 @@ template <int S> struct Runner {
     // propagating the partials reproduces the analytic gradient
     Grads pg = sp.propagateGrad(pc, pt);
     compare(pg, "propagated_partials_vs_jets", thr_egrad(S));
+    // the same through the reference overloads used IN PLACE, the way an optimisation loop with one long-lived Gradients object does it: the
+    // partial w.r.t. the durations is written into g.times, which is then both the upstream duration gradient and the output (C06-m9)
+    { Grads gi; sp.getEnergyPartialGradByTimes(gi.times); sp.propagateGrad(pc, gi.times, gi); ++c.st.comparisons; if (!grads_bits_equal(gi, pg)) fail("propagated-partials-in-place", p, "propagateGrad(partials) with g.times as both input and output differs from the by-value result"); }
   }
 
   void run_case(int N, const std::vector<double> &T, double t0) {
